@@ -218,6 +218,26 @@ impl<'a, T: Queryable> Pointer<'a, T> {
 
         Pointer { inner, path }
     }
+    /// Appends the step to the member with the given (unquoted, unescaped) name.
+    pub fn member(inner: &'a T, path: QueryPath, name: &str) -> Self {
+        let mut path = path;
+        path.push_str("['");
+        for c in name.chars() {
+            match c {
+                '\'' => path.push_str("\\'"),
+                '\\' => path.push_str("\\\\"),
+                '\u{0008}' => path.push_str("\\b"),
+                '\u{000C}' => path.push_str("\\f"),
+                '\n' => path.push_str("\\n"),
+                '\r' => path.push_str("\\r"),
+                '\t' => path.push_str("\\t"),
+                c if c < '\u{0020}' => path.push_str(&format!("\\u{:04x}", c as u32)),
+                c => path.push(c),
+            }
+        }
+        path.push_str("']");
+        Pointer { inner, path }
+    }
     pub fn idx(inner: &'a T, path: QueryPath, index: usize) -> Self {
         Pointer {
             inner,
